@@ -47,6 +47,9 @@ Slack16 == 24
 Floor16(v) == v \div 65536
 NearestSet(img, ext, c) ==
   {Texel(img, ext, Floor16(c[1] + dx), Floor16(c[2] + dy)) : dx \in {-Slack16, Slack16}, dy \in {-Slack16, Slack16}}
+\* a map whose entries are exact in 16.16 (small dyadic denominators) needs no slack: exactly texel (floor x, floor y),
+\* also when the pixel centre falls on a texel boundary
+NearestExact(img, ext, c) == {Texel(img, ext, Floor16(c[1]), Floor16(c[2]))}
 
 \* 4-bit bilinear interpolation around (x - 1/2, y - 1/2)
 Bilin(img, ext, u, v) ==
@@ -61,6 +64,9 @@ BilinearSet(img, ext, c) ==
 
 ScaledBy(p, ab) == {AlphaMul(p, Alpha256(ab)), [ch \in Chan |-> MulDiv255(p[ch], ab)]}
 \* bilinear with alpha scales the unreduced sum; accept both orders of rounding
+ImageColoursX(img, ext, filter, c, ab, exact) ==
+  LET base == IF filter = "Nearest" THEN (IF exact THEN NearestExact(img, ext, c) ELSE NearestSet(img, ext, c)) ELSE BilinearSet(img, ext, c)
+  IN UNION {ScaledBy(p, ab) : p \in base}
 ImageColours(img, ext, filter, c, ab) ==
   LET base == IF filter = "Nearest" THEN NearestSet(img, ext, c) ELSE BilinearSet(img, ext, c)
   IN UNION {ScaledBy(p, ab) : p \in base}
